@@ -1,5 +1,5 @@
 //! C10 — projections map the view volume onto the clip cube and reject bad parameters.
-use cgmath::{frustum, ortho, perspective, planar, Angle, PerspectiveFov, Transform};
+use cgmath::{frustum, ortho, perspective, planar, Angle, Ortho, Perspective, PerspectiveFov, PlanarFov, Transform};
 use mc_props::*;
 use std::f64::consts::PI;
 
@@ -97,15 +97,74 @@ fn boxes<T: Tier>(rep: &mut Report) {
     );
 }
 
+/// ortho states no precondition: a window given right-to-left, top-to-bottom, with near behind far, or with planes at
+/// zero or negative distance is as valid as any other, and the statement's map (l -> -1, r -> +1, ..., near -> -1,
+/// far -> +1) is the same affine formula
+fn ortho_unordered<T: Tier>(rep: &mut Report) {
+    let base: Vec<[R; 6]> = windows().into_iter().step_by(13).collect();
+    // bit k of the mask exchanges the k-th pair; variants 8..10 move the planes to zero / negative distances
+    let nvar = 11;
+    rep.cases(
+        "ortho/unordered",
+        T::NAME,
+        &format!("{} windows x {{7 ways to exchange l/r, b/t, n/f; near = 0; near < 0 < far; both planes negative}} x 27 probes; also through Ortho{{..}}.into()", base.len()),
+        base.len() * nvar,
+        Guard::states(50).distinct(50),
+        |i, ctx| {
+            let (bi, var) = (i / nvar, i % nvar + 1);
+            let mut w = base[bi];
+            if var <= 7 {
+                for k in 0..3 {
+                    if var >> k & 1 == 1 {
+                        w.swap(2 * k, 2 * k + 1);
+                    }
+                }
+            } else {
+                let d = (w[5].0 * w[4].1 - w[4].0 * w[5].1, w[4].1 * w[5].1); // far - near > 0
+                match var {
+                    8 => { w[4] = (0, 1); w[5] = d; }
+                    9 => { w[4] = (-d.0, d.1 * 2); w[5] = (d.0, d.1 * 2); }
+                    _ => { w[5] = (-w[4].0, w[4].1); w[4] = (-w[4].0 * d.1 - d.0 * w[4].1, w[4].1 * d.1); }
+                }
+            }
+            let wt: [T; 6] = vec_from_r(&w);
+            let [l, r, b, t, n, f] = wt;
+            ctx.describe(|| format!("l={:?} r={:?} b={:?} t={:?} n={:?} f={:?}", l, r, b, t, n, f));
+            ctx.out(&(bi, var));
+            let mw: [T::M; 6] = lift_v(wt);
+            let half = T::M::ratio(1, 2);
+            let lerp = |a: T::M, b: T::M, u: i64| -> T::M { a + (b - a) * (T::M::int(u + 1) * half) };
+            let mo = ortho(l, r, b, t, n, f);
+            let mi: Matrix4<T> = Ortho { left: l, right: r, bottom: b, top: t, near: n, far: f }.into();
+            same_slice(ctx, &key("Ortho::into=ortho"), &flat_m(m4(mi)), &flat_m(m4(mo)));
+            for u in -1..=1 {
+                for v in -1..=1 {
+                    for s in -1..=1 {
+                        let pm = [lerp(mw[0], mw[1], u), lerp(mw[2], mw[3], v), -lerp(mw[4], mw[5], s)];
+                        let p: [T; 3] = lower_v::<T, 3>(pm);
+                        let (ndc, wv, tp) = images(mo, p);
+                        let scale = pm.iter().fold(1.0f64, |a, x| a.max(x.approx().abs()));
+                        let want: [T::M; 3] = [T::M::int(u).with_abs_err(8.0 * scale), T::M::int(v).with_abs_err(8.0 * scale), T::M::int(s).with_abs_err(8.0 * scale)];
+                        eq_vc::<T, 3>(ctx, &key("ortho/unordered/box-to-cube"), ndc, want, 4.0);
+                        eq_vc::<T, 3>(ctx, &key("ortho/unordered/transform_point"), tp, want, 4.0);
+                        same_slice(ctx, &key("ortho/unordered/affine(w=1)"), &[wv], &[T::one()]);
+                    }
+                }
+            }
+        },
+    );
+}
+
 fn fov_cases<T: Tier + Dom<M = Sh>>(rep: &mut Report) {
     let fovs: Vec<f64> = if rep.quick() { (1..=15).map(|j| j as f64 * 0.2).collect() } else { (1..=155).map(|j| j as f64 * 0.02).collect() };
     let aspects: [f64; 4] = [0.5, 1.0, 16.0 / 9.0, -1.0];
-    let nf: [(f64, f64); 4] = [(0.5, 1.0), (1.0, 100.0), (0.1, 3.0), (3.0, 3.5)];
+    // the last pair has the far plane nearer than the near plane (reversed depth): no stated precondition forbids it
+    let nf: [(f64, f64); 5] = [(0.5, 1.0), (1.0, 100.0), (0.1, 3.0), (3.0, 3.5), (3.0, 0.5)];
     let dims = [fovs.len(), aspects.len(), nf.len(), 2];
     rep.cases(
         "perspective",
         T::NAME,
-        &format!("{} fovy values x 4 aspects x 4 (near, far) pairs, in Rad and in Deg", fovs.len()),
+        &format!("{} fovy values x 4 aspects x 5 (near, far) pairs (one reversed), in Rad and in Deg", fovs.len()),
         alphabet::product_len(&dims),
         Guard::states(50).distinct(50),
         |i, ctx| {
@@ -138,7 +197,7 @@ fn fov_cases<T: Tier + Dom<M = Sh>>(rep: &mut Report) {
                 [z, z, -(two * ff * nn) / (ff - nn), z],
             ];
             eq_mc::<T, 4>(ctx, &key("perspective=frustum(symmetric)"), m4(m), wmodel, 4.0);
-            if asp.f() > 0.0 {
+            if asp.f() > 0.0 && n.f() < f.f() {
                 let lo = |x: Sh| -> T { c(x.v) };
                 let want = frustum(lo(-xmax), lo(xmax), lo(-ymax), lo(ymax), n, f);
                 let wm = m4(want);
@@ -157,14 +216,14 @@ fn fov_cases<T: Tier + Dom<M = Sh>>(rep: &mut Report) {
         },
     );
     // planar
-    let fovs: Vec<f64> = if rep.quick() { (-7..=14).map(|j| j as f64 * 0.2).collect() } else { (-75..=150).map(|j| j as f64 * 0.02).collect() };
+    let fovs: Vec<f64> = if rep.quick() { (-15..=15).map(|j| j as f64 * 0.2).collect() } else { (-155..=155).map(|j| j as f64 * 0.02).collect() };
     let hs: [f64; 3] = [0.5, 2.0, 7.0];
-    let nfs: [(f64, f64); 3] = [(1.0, 10.0), (0.5, 2.0), (10.0, 1.0)];
+    let nfs: [(f64, f64); 5] = [(1.0, 10.0), (0.5, 2.0), (10.0, 1.0), (-4.0, 4.0), (-1.0, -3.0)];
     let dims = [fovs.len(), aspects.len(), hs.len(), nfs.len(), 2];
     rep.cases(
         "planar",
         T::NAME,
-        &format!("{} fovy values (negative, zero, positive) x 4 aspects x 3 heights x 3 (near, far) pairs, in Rad and in Deg", fovs.len()),
+        &format!("{} fovy values (negative, zero, positive) x 4 aspects x 3 heights x 5 (near, far) pairs (reversed, straddling the origin, behind it), in Rad and in Deg", fovs.len()),
         alphabet::product_len(&dims),
         Guard::states(50).distinct(30).need("judged", 30),
         |i, ctx| {
@@ -338,7 +397,48 @@ fn reject<T: Tier + Dom<M = Sh>>(rep: &mut Report) {
             let _ = planar(Rad(c(1.0)), c(1.0), c(2.0), c(n), c(f));
         }));
     }
+    // valid although unusual: planes in reverse order (perspective), barely separated planes, a thin aspect, wide negative fovy
+    for (what, fov, asp, n, f) in [("near>far", 1.0, 1.5, 10.0, 0.5), ("far-near=1e-3", 1.0, 1.5, 1.0, 1.001), ("aspect=1e-3", 1.0, 1e-3, 0.5, 10.0), ("aspect=-1e-3", 1.0, -1e-3, 0.5, 10.0), ("fovy=3.1", 3.1, 1.0, 0.5, 10.0), ("fovy=1e-3", 1e-3, 1.0, 0.5, 10.0)] {
+        add(format!("perspective valid {what}"), false, std::sync::Arc::new(move || {
+            let _ = perspective(Rad(c(fov)), c(asp), c(n), c(f));
+        }));
+    }
+    for (what, fov, asp, h, n, f) in [("fovy=-2", -2.0, 1.0, 2.0, 1.0, 10.0), ("fovy=-3.1", -3.1, 1.0, 2.0, 1.0, 10.0), ("fovy=3.1", 3.1, 1.0, 2.0, 1.0, 10.0), ("far-near=1e-3", 1.0, 1.0, 2.0, 1.0, 1.001), ("aspect=1e-3", 1.0, 1e-3, 2.0, 1.0, 10.0), ("height=0", 0.0, 1.0, 0.0, 1.0, 10.0)] {
+        if what == "height=0" {
+            continue; // h = 0 with fovy = 0: focal point undefined (0/0); not classified by the statement
+        }
+        add(format!("planar valid {what}"), false, std::sync::Arc::new(move || {
+            let _ = planar(Rad(c(fov)), c(asp), c(h), c(n), c(f));
+        }));
+    }
+    // the same preconditions through the struct conversions
+    add("Perspective{..}.into() valid".to_string(), false, std::sync::Arc::new(move || {
+        let _: Matrix4<T> = Perspective { left: c(-1.0), right: c(2.0), bottom: c(-0.5), top: c(1.0), near: c(1.0), far: c(5.0) }.into();
+    }));
+    for (what, l, r, b, t, n, f) in [("left>right", 2.0, -1.0, -0.5, 1.0, 1.0, 5.0), ("bottom>top", -1.0, 2.0, 1.0, -0.5, 1.0, 5.0), ("near>far", -1.0, 2.0, -0.5, 1.0, 5.0, 1.0)] {
+        add(format!("Perspective{{..}}.into() {what}"), true, std::sync::Arc::new(move || {
+            let _: Matrix4<T> = Perspective { left: c(l), right: c(r), bottom: c(b), top: c(t), near: c(n), far: c(f) }.into();
+        }));
+    }
+    add("PlanarFov{..}.into() valid".to_string(), false, std::sync::Arc::new(move || {
+        let _: Matrix4<T> = PlanarFov { fovy: Rad(c(1.0)), aspect: c(1.5), height: c(2.0), near: c(1.0), far: c(10.0) }.into();
+    }));
+    for (what, fov, asp, h, n, f) in [("fovy=pi", pi_t, 1.5, 2.0, 1.0, 10.0), ("fovy=-pi", -pi_t, 1.5, 2.0, 1.0, 10.0), ("height<0", 1.0, 1.5, -2.0, 1.0, 10.0), ("aspect=0", 1.0, 0.0, 2.0, 1.0, 10.0), ("near=far", 1.0, 1.5, 2.0, 3.0, 3.0), ("focal-point-between-planes", 1.0, 1.0, 2.0, -3.0, 1.0)] {
+        add(format!("PlanarFov{{..}}.into() {what}"), true, std::sync::Arc::new(move || {
+            let _: Matrix4<T> = PlanarFov { fovy: Rad(c(fov)), aspect: c(asp), height: c(h), near: c(n), far: c(f) }.into();
+        }));
+    }
+    for (what, fov, asp, n, f) in [("aspect=0", 1.0, 0.0, 0.5, 10.0), ("near=0", 1.0, 1.5, 0.0, 10.0), ("near<0", 1.0, 1.5, -1.0, 10.0), ("far=0", 1.0, 1.5, 0.5, 0.0), ("far<0", 1.0, 1.5, 0.5, -2.0), ("near=far", 1.0, 1.5, 3.0, 3.0)] {
+        add(format!("PerspectiveFov.into() {what}"), true, std::sync::Arc::new(move || {
+            let _: Matrix4<T> = PerspectiveFov { fovy: Rad(c(fov)), aspect: c(asp), near: c(n), far: c(f) }.into();
+        }));
+    }
     // ortho has no stated precondition: valid tuples must not panic
+    for (what, l, r, b, t, n, f) in [("right<left", 2.0, -1.0, -0.5, 1.0, 1.0, 5.0), ("top<bottom", -1.0, 2.0, 1.0, -0.5, 1.0, 5.0), ("far<near", -1.0, 2.0, -0.5, 1.0, 5.0, 1.0), ("near=0", -1.0, 2.0, -0.5, 1.0, 0.0, 5.0), ("near<0", -1.0, 2.0, -0.5, 1.0, -2.0, 5.0)] {
+        add(format!("ortho valid {what}"), false, std::sync::Arc::new(move || {
+            let _ = ortho(c(l), c(r), c(b), c(t), c(n), c(f));
+        }));
+    }
     add("ortho valid".to_string(), false, std::sync::Arc::new(move || {
         let _ = ortho(c(-1.0), c(2.0), c(-0.5), c(1.0), c(1.0), c(5.0));
     }));
@@ -369,6 +469,9 @@ fn main() {
     boxes::<Ex>(&mut rep);
     boxes::<f64>(&mut rep);
     boxes::<f32>(&mut rep);
+    ortho_unordered::<Ex>(&mut rep);
+    ortho_unordered::<f64>(&mut rep);
+    ortho_unordered::<f32>(&mut rep);
     fov_cases::<f64>(&mut rep);
     fov_cases::<f32>(&mut rep);
     reject::<f64>(&mut rep);
